@@ -395,7 +395,7 @@ func checkC08(raw json.RawMessage) (ev.Result, error) {
 		// observation at the system-call boundary, independent of the hooks
 		var sec []kchild.SysCall
 		for _, s := range rr.Strace {
-			if s.Name == "seccomp" {
+			if s.Name == "seccomp" && len(s.Args) > 0 && s.Args[0] == "0x1" {
 				sec = append(sec, s)
 			}
 		}
